@@ -22,19 +22,22 @@ import (
 type boundedRun struct {
 	mode, tags string
 	frame      bool // a family of the frame-level harness (package lz4) instead of the block-level one
+	race       bool // run under the race detector, with block buffers poisoned when they go back to the pools
 }
 
 var boundedPlans = map[string][]boundedRun{
-	"C01": {{"c01", "", false}},
-	"C04": {{"c04", "", false}, {"c04", "noasm", false}},
-	"C12": {{"c04", "", false}, {"c04", "noasm", false}},
-	"C14": {{"c14", "", false}, {"c14frames", "", true}},
+	"C01": {{"c01", "", false, false}},
+	"C04": {{"c04", "", false, false}, {"c04", "noasm", false, false}},
+	"C12": {{"c04", "", false, false}, {"c04", "noasm", false, false}},
+	"C14": {{"c14", "", false, false}, {"c14frames", "", true, false}},
+	"C08": {{"c08", "", true, true}},
 }
 
 var boundedRules = map[string]string{
 	"C01": "BOUNDED. Sources: every string over {a,b} of length 0..13 (0..16 thorough), every string over {0,1,2} of length 1..8 (1..10 thorough), periodic sources (16 periods x 26 lengths x 5 break positions), repeats at distances 65534..65537 and 131071/131072, and pseudo-random structured sources (seeded). Each is compressed by the fast compressor (fresh object, one object reused across all cases, pooled package function; destination exactly CompressBlockBound and 3 larger) and by the HC compressor at depths 0,1,2,7,512,4096,131072 (fresh, reused, pooled); the result must be positive with nil error, strictly valid and decode to the source by the independent decoder and by the package decoder. A case is non-trivial when the source is longer than 12 bytes (shorter sources are emitted as literals only); distinct by content hash.",
 	"C04": "BOUNDED. Blocks: one match with literal lengths {0,1,14,15,16,270} x match lengths {4,5,18,19,20,274} x offsets {0,1,2,3,4,7,8,15,16,17,18,di,di+1,di+len(dict),di+len(dict)+1,65535} x final literals {0,1,5,12,17} x dictionaries of length {0,1,27,70000}; every truncation and six values at each structural byte of the small ones; two-match blocks whose second match reaches into the first / the dictionary; blocks from a random sequence grammar and bit flips in real compressor output (seeded). Destination exactly large enough, one byte short and five bytes larger. Outcome (error or not), length and bytes must equal the independent decoder's, whatever the destination held before, with nothing written beyond len(dst). Run in the default build (assembly decoder) and with -tags noasm (portable decoder). Non-trivial: blocks longer than 3 bytes; distinct by content hash.",
 	"C14": "BOUNDED. Block level: every string over {a,b} of length 0..12 (0..15 thorough), periodic sources (10 periods x 10 lengths up to 70000) and pseudo-random structured sources are compressed by a fresh compressor object, by five long-lived fast compressor objects and four HC objects whose histories began with other inputs (empty, 72000 repeating bytes, 70000 zeros, 100000 random bytes, one byte) and then served every earlier case, and by the pooled package functions (pool poisoned the same way); HC at depths 0,1,7,512,131072; all outputs must be byte-identical to the fresh object's. Frame level: random contents (0..300001 bytes) and option sets (incl. legacy) written with concurrency 1, 2 and 4 as one Write, a random split, 4099-byte writes and ReadFrom; every frame must be byte-identical to the sequential single-Write frame. Non-trivial: sources longer than 4 bytes / contents longer than one block; distinct by content hash. Goroutine schedules are whatever the runs happened to take (not enumerated).",
+	"C08": "BOUNDED. A finite family of call sequences on concurrent Writers and Readers, run under the Go race detector with every block buffer overwritten (0xDB) at the moment it is returned to the pools, so that a use after release is a reported race or corrupt output: concurrency 2 and 4; 0, 1, 2, 5, 17 blocks of 64 KiB plus a partial one; input as one Write, random splits with and without Flush in between, and ReadFrom; on-block-done callbacks installed; Close, Reset and reuse after Close; a sink failing at its 1st/2nd/3rd write followed by Reset and reuse; the frame read back by a concurrent Reader with small and large buffers and WriteTo; a corrupted block (early error). Each call runs under a 20 s watchdog (a call that does not return is the failure); output must parse, be complete and in submission order; runtime.NumGoroutine must be back at its starting value after Close, after the end of the stream and after an error. Goroutine schedules are whatever the runs took: interleavings are NOT enumerated. Non-trivial: more than one block.",
 	"C12": "BOUNDED. The C04 family is run in the default build (assembly decoder) and with -tags noasm (portable decoder); both must give the outcome, length and bytes of the same independent decoder on every case, hence the same as each other. Non-trivial: blocks longer than 3 bytes; distinct by content hash.",
 }
 
@@ -85,6 +88,27 @@ func cmdBounded(args []string) int {
 			return 2
 		}
 		a := []string{"test", "-v", "-overlay", ovFile, "-vet=off", "-count=1", "-timeout", "1500s", "-run", test}
+		poisonNote := ""
+		if pr.race {
+			a = append(a, "-race")
+			// the pool's Put, with the buffer overwritten first: derived mechanically from the working tree
+			bp := filepath.Join(repoDir, "internal/lz4block/blocks.go")
+			src, _ := os.ReadFile(bp)
+			const head = "func Put(buf []byte) {\n"
+			if strings.Count(string(src), head) == 1 {
+				pz := strings.Replace(string(src), head, head+"\tfor i := range buf[:cap(buf)] {\n\t\tbuf[:cap(buf)][i] = 0xDB // lz4verif: poison on release\n\t}\n", 1)
+				pf := filepath.Join(scratch, "blocks_poisoned.go")
+				os.WriteFile(pf, []byte(pz), 0o644)
+				var ovm map[string]map[string]string
+				ob, _ := os.ReadFile(ovFile)
+				json.Unmarshal(ob, &ovm)
+				ovm["Replace"][bp] = pf
+				ob, _ = json.Marshal(ovm)
+				os.WriteFile(ovFile, ob, 0o644)
+			} else {
+				poisonNote = " (lz4block.Put not found in its usual form: buffers not poisoned in this run)"
+			}
+		}
 		if pr.tags != "" {
 			a = append(a, "-tags", pr.tags)
 		}
@@ -100,8 +124,11 @@ func cmdBounded(args []string) int {
 		if pr.tags != "" {
 			build = "-tags " + pr.tags + " (portable decoder)"
 		}
+		if pr.race {
+			build += ", -race" + poisonNote
+		}
 		runs = append(runs, fmt.Sprintf("family %s, %s: %.1fs", pr.mode, build, time.Since(t1).Seconds()))
-		if m := reB.FindStringSubmatch(out); m != nil {
+		if m := reB.FindStringSubmatch(out); m != nil && !strings.Contains(out, "WARNING: DATA RACE") {
 			e, _ := strconv.Atoi(m[1])
 			n, _ := strconv.Atoi(m[2])
 			evals += e
@@ -118,7 +145,7 @@ func cmdBounded(args []string) int {
 		dir := filepath.Join(vd, "replays", *prop)
 		os.MkdirAll(dir, 0o755)
 		path := filepath.Join(dir, fmt.Sprintf("bounded_%s_%s.json", pr.mode, map[bool]string{true: "noasm", false: "default"}[pr.tags != ""]))
-		confirmed := strings.Contains(out, "LZ4VERIF-FAIL")
+		confirmed := strings.Contains(out, "LZ4VERIF-FAIL") || strings.Contains(out, "WARNING: DATA RACE")
 		rep := map[string]interface{}{"property": *prop, "family": pr.mode, "build": build, "confirmed": confirmed,
 			"origin": "bounded enumeration on the real code (engine/harness/lz4block_replay_test.go.txt, TestLz4verifBounded)", "harness_output": truncate(out, 12000)}
 		d, _ := json.MarshalIndent(rep, "", " ")
@@ -129,7 +156,7 @@ func cmdBounded(args []string) int {
 		}
 		fmt.Printf("VIOLATION property=%s replay=%s%s\n", *prop, path, suffix)
 		for _, l := range strings.Split(out, "\n") {
-			if strings.HasPrefix(l, "LZ4VERIF-FAIL") || strings.HasPrefix(l, "LZ4VERIF-INPUT") {
+			if strings.HasPrefix(l, "LZ4VERIF-FAIL") || strings.HasPrefix(l, "LZ4VERIF-INPUT") || strings.HasPrefix(l, "WARNING: DATA RACE") {
 				fmt.Println("  " + truncate(l, 400))
 			}
 		}
